@@ -13,7 +13,7 @@ annotation styles, `accepts_root` and `schema_safe` are compared with what the
 implementation does.  The CLI runs in a temp dir with a pre-existing output file
 (invalid inputs: exit != 0, diagnostic, output intact; valid inputs: output = in-process
 text), and generations are repeated in another order in one process (order independence).
-Failing cases are classified against the open findings F14a..F14j by region predicates
+Failing cases are classified against the open findings F14b..F14k by region predicates
 computed from the document.
 """
 import json, math
@@ -44,14 +44,14 @@ META = {
                  'C19_or_accepts_refuted', 'C19_loads', 'C19_loads_refuted_F14b', 'C19_loads_refuted_F14d',
                  'C19_loads_refuted_F14e', 'C19_loads_refuted_F14f', 'C19_wellformed', 'C19_names_resolve',
                  'C19_wellformed_refuted_F14c', 'C19_names_refuted_F14g', 'C19_deterministic',
-                 'C19_cli_atomic_refuted', 'C19_cli_atomic_partial', 'C19_cli_atomic_lazy', 'C19_cli_valid_writes', 'C19_tables',
+                 'C19_cli_atomic', 'C19_cli_valid_writes', 'C19_tables',
                  'C19_bool_values_model'],
     'tables': ['SchemaTables'],
     'level_text': ('Theorems proved in Coq for ALL JSON documents (any depth/width) and both flag settings about an executable model of the '
                    'generator: every document inside the decidable region schema_safe is loaded by the inferred root (C19_loads), every class '
                    'reference resolves to its own declaration and every name is a valid identifier (C19_names_resolve, C19_wellformed); outside '
-                   'the region the faithful model REFUTES the property with the F14b/c/d/e/f documents; the CLI step machine refutes atomicity '
-                   '(F14a).  The model is re-validated against the implementation on every run and the theorem\'s instance '
+                   'the region the faithful model REFUTES the property with the F14b/c/d/e/f/g documents; the CLI step machine selected by the '
+                   'source-derived table (output opened on first write, fix F14a) satisfies the atomicity clause for every invalid input (C19_cli_atomic).  The model is re-validated against the implementation on every run and the theorem\'s instance '
                    '"schema_safe j => generated root loads j" is tested on the real generator for every generated document.'),
     'level_note': ('Trusted: Coq kernel + vm_compute; the hand-written model coq/model/SchemaGen.v; the acceptance relation accepts_ty is a '
                    'conservative model of the default loader (validated in the sound direction on every case); naming functions, '
@@ -676,21 +676,12 @@ def run(ctx):
         ctx.count(1, key='cli|' + json.dumps(c, sort_keys=True), nontrivial=True)
         ctx.hist('cli_input', c['input_kind'])
         bad = cli_predicate(c, res)
-        in_f14a = (not c['valid']) and c['input_kind'] in ('syntax', 'scalar', 'genraises') and c['out_exists']
+        # F14a (output truncated on invalid input) is FIXED in /repo: no region, every failure is reported
         if bad is not None:
-            if in_f14a and 'output file was modified' in bad and ctx.is_open_region('F14a'):
-                ctx.hist('known_region', 'F14a')
-            else:
-                ctx.violation('CLI: %s (input kind %s)' % (bad, c['input_kind']), {'kind': 'cli', 'case': c})
+            ctx.violation('CLI: %s (input kind %s)' % (bad, c['input_kind']), {'kind': 'cli', 'case': c})
         before = coq_opt(coq_str(c['existing'])) if c['out_exists'] else 'None'
         inp = '(InDoc %s)' % coq_str(res.get('inprocess_code') or '') if c['valid'] else CLI_MODEL_INPUT[c['input_kind']]
         cli_exprs.append('show_cli %s %s' % (inp, before))
-    f14a = ctx.finding('F14a')
-    if f14a:
-        w = f14a['witness']
-        res = ctx.impl('c19_cli', {'cases': [w['case']]})['cases'][0]
-        ctx.count(1, key='witness:F14a')
-        ctx.known_finding('F14a', still_fails=cli_predicate(w['case'], res) is not None)
     if model is not None:
         try:
             cm = coq_eval_retry(ctx, cli_exprs, ['SchemaGen', 'T_SchemaTables'], make_prelude(O), 'cli')
